@@ -1,0 +1,17 @@
+//go:build verif
+
+package object
+
+// VerifHook, when set by a verification harness, is called at the named points of the
+// save path (hook H2): repl.AutoSave ("autosave.start", "autosave.created",
+// "autosave.written", "autosave.renamed") and after each binding written by SaveGlobals
+// ("save.binding", n = bindings written so far). It may kill the process (crash point)
+// or return an error (injected write failure).
+var VerifHook func(point string, n int) error
+
+func VerifPoint(point string, n int) error {
+	if VerifHook == nil {
+		return nil
+	}
+	return VerifHook(point, n)
+}
